@@ -237,6 +237,11 @@ func c01f1(env *core.Env) {
 			continue // an error no later than EOF is what the statement allows
 		}
 		// a clean end-of-stream
+		if how == "truncate-body" || how == "grow-length" {
+			// fewer bytes on the wire than the response's framing promised: too short,
+			// for verified and unverified (range) reads alike
+			env.Failf("C01/"+op.Kind.String()+"/truncated-body-clean-eof/"+how, "%s [network: %s]: the body broke off before the length the response declared, but the read ended cleanly with %d bytes", op, how, len(res.Data))
+		}
 		if op.Kind == reg.GetBlobRange {
 			if int64(len(res.Data)) > res.Desc.Size {
 				env.Failf("C01/GetBlobRange/more-than-blob", "%s [network: %s] delivered %d bytes, more than the blob size %d, and ended cleanly", op, how, len(res.Data), res.Desc.Size)
